@@ -1,18 +1,32 @@
 """C20 - compiled kernels never touch memory outside their arguments; promised outputs are defined on return.
 
 specs : KernelCalls.tla  - the interface (src/_cImageD11.pyf): for every exported kernel the boundary lattice of
-                           well-formed calls; WellFormedInv; emits one descriptor per call
+                           well-formed calls; WellFormedInv; emits one descriptor per call.  For the 23 kernels with
+                           an OpenMP region (ParK) the lattice has a thread-count dimension: nt in {1,2,3,7,16,31,64}
+                           on the small shapes, on thin strips (N x 3, N x 5, 3 x N, 5 x N) and on every list size,
+                           tagged by the relation of nt to the trip count (one / more threads than elements / a
+                           remainder to hand out / exact shares / shares that are multiples of 64); PartitionInv
+                           (the hand-written split of localmaxlabel tiles 0..npx-1), ThreadInv
         ConnPix (+Dset), SparseCP, LocalMax, SparseCoo, SparseOverlaps, Merge3D, ScoreRefine, ScoreAssign
                          - the kernel models, re-run here at their boundary scopes with their InBounds / DsInv /
-                           NoPoisonRead / Defined invariants; their emitted cases carry exact expectations
+                           NoPoisonRead / Defined invariants; their emitted cases carry exact expectations (replayed
+                           through their owners' replay modules; python-level / value-level findings recorded by C13
+                           and C14 that involve no memory - values <= -1e10 in sparse_localmaxlabel, to_dense(<array>)
+                           raising TypeError - are counted in the evidence, not judged here)
 binding: every emitted descriptor / case is executed on the real kernels built with AddressSanitizer + UBSan
         (harness/c20_driver.py in a child process: exactly-sized malloc'ed arrays, poisoned outputs, definedness and
         reference checks), in batches - after a sanitizer abort the violation is recorded and the run resumes behind
-        the offending case; the large descriptors also run on the normal build with 1, 4 and 16 OpenMP threads.
-verdict: sanitizer report, surviving poison / NaN in a promised output, or output differing from model / reference
-        = VIOLATION (replay file = the descriptor); `--replay` re-runs it on the sanitizer build.
+        the offending case; a sample of the descriptors without a thread count also runs on the normal build with 1, 4
+        and 16 OpenMP threads.  Every descriptor with a thread count runs on the normal build with exactly that many
+        threads (cimaged11_omp_set_num_threads, restored behind the call), a seeded part of them (thorough: all) also
+        on the sanitizer build; besides poison and reference each promised output is compared with the single-thread
+        result of the same call.  The set ParK is compared with the `#pragma omp parallel` regions of the tree's
+        src/*.c; every kernel of ParK must have been executed in each of the five thread-count relations.
+verdict: sanitizer report, surviving poison / NaN in a promised output, output differing from model / reference, or
+        output depending on the number of threads = VIOLATION (replay file = the descriptor); `--replay` re-runs it
+        on the build it failed on and on the sanitizer build.
 """
-import os, sys, json, subprocess, time, threading, re
+import os, sys, json, subprocess, time, threading, re, glob
 import numpy as np
 import common
 from props import c11
@@ -20,6 +34,7 @@ from props import c11
 PROP = "C20"
 F_SMOOTH = "C20-sparse-smooth-int-overflow"
 F_MOMENT = "C20-add-pixel-int-overflow"
+F_PART = "C20-localmaxlabel-partition-int-overflow"
 HERE = os.path.dirname(os.path.dirname(os.path.abspath(__file__)))
 DRIVER = os.path.join(HERE, "c20_driver.py")
 THREADS = [1, 4, 16]
@@ -53,10 +68,10 @@ def lm_cfg(ns, nf, family, V, P):
                             invariants=["NoPoisonRead", "Defined", "BorderZero", "Emit"])
 
 
-def sa_cfg(G, K, E):
-    return common.write_cfg(os.path.join(common.scratch(), "c20_scoreassign_%d%d%d.cfg" % (G, K, E)),
-                            constants={"G": G, "K": K, "E": E, "NCHUNK": 2, "EmitOn": True},
-                            invariants=["BestGrain", "StoredError", "ReturnedCounts", "Sane", "Emit"])
+def sa_cfg(G):
+    """C07's fresh-pass configuration (every grain presented once, any order, 2 peaks, 3 error levels + "outside the
+    tolerance") with G grains"""
+    return _scratch_cfg("c20_scoreassign_%d.cfg" % G, "ScoreAssign_q.cfg", [("G = 3", "G = %d" % G), ("R = 3", "R = %d" % G)])
 
 
 def model_runs(tier):
@@ -81,10 +96,10 @@ def model_runs(tier):
     if q:
         runs.append(("ScoreRefine MAXPK=2", "ScoreRefine", _scratch_cfg("c20_scorerefine.cfg", "ScoreRefine_q.cfg",
                                                                         [("MAXPK = 3", "MAXPK = 2")]), "scorerefine", None))
-        runs.append(("ScoreAssign G=2 K=2 E=3", "ScoreAssign", sa_cfg(2, 2, 3), "scoreassign", None))
+        runs.append(("ScoreAssign G=2 K=2 E=3", "ScoreAssign", sa_cfg(2), "scoreassign", 2))
     else:
         runs.append(("ScoreRefine q", "ScoreRefine", os.path.join(common.SPECS, "ScoreRefine_q.cfg"), "scorerefine", None))
-        runs.append(("ScoreAssign G=3 K=2 E=3", "ScoreAssign", os.path.join(common.SPECS, "ScoreAssign_q.cfg"), "scoreassign", None))
+        runs.append(("ScoreAssign G=3 K=2 E=3", "ScoreAssign", os.path.join(common.SPECS, "ScoreAssign_q.cfg"), "scoreassign", 3))
     return runs
 
 
@@ -131,8 +146,8 @@ def run_all_tlc(chk, tier):
                 raise common.MachineryError("TLC rerun %s failed: %s" % (name, res2.error or res2.violated))
             recs = [json.loads(line) for line in res2.printed]
         if src == "kc" and tier == "thorough":
-            need = ["PickKernel", "PickShape", "PickBigShape", "PickContent", "PickContent2", "PickSize", "PickSize2",
-                    "PickParam", "PickOption", "Finish"]
+            need = ["PickKernel", "PickShape", "PickBigShape", "PickStripShape", "PickContent", "PickContent2", "PickSize",
+                    "PickSize2", "PickParam", "PickOption", "PickThreads", "PickHugeShape", "Finish"]
             for a in need:
                 if res.coverage.get(a, (0, 0))[1] == 0:
                     raise common.MachineryError("vacuity: action %s of KernelCalls never taken (%s)" % (a, sorted(res.coverage)))
@@ -175,7 +190,7 @@ def run_all_tlc(chk, tier):
         elif src == "scoreassign":
             recs.sort(key=lambda r: json.dumps(r, sort_keys=True))
             for n, r in enumerate(recs):
-                model.append({"src": src, "case": r, "reps": 2049 if n % 97 == 5 else 1})
+                model.append({"src": src, "case": r, "G": extra, "reps": 2049 if n % 97 == 5 else 1})
         counts[name] = len(recs)
     chk.notes["emitted_per_tlc_run"] = counts
     if iface is None or not desc:
@@ -217,6 +232,8 @@ def describe(case):
         if d["n"] or d["m"]:
             bits.append("n=%d m=%d" % (d["n"], d["m"]))
         bits.append("par=%s opt=%d" % (d["par"], d["opt"]))
+        if d.get("nt"):
+            bits.append("nt=%d" % d["nt"])
         return " ".join(bits)
     return "%s model case" % case["src"]
 
@@ -226,7 +243,8 @@ class Replayer(object):
         self.chk = chk
         self.rejected = {}
         self.checked = {}
-        self.stats = {"asan_cases": 0, "asan_calls": 0, "thread_cases": 0, "thread_calls": 0, "sanitizer_aborts": 0}
+        self.stats = {"asan_cases": 0, "asan_calls": 0, "thread_cases": 0, "thread_calls": 0, "sanitizer_aborts": 0,
+                      "thread_compared": 0}
         self.notes = {}
         self.module_functions = None
         self.driver_kernels = None
@@ -331,6 +349,7 @@ class Replayer(object):
             self.driver_kernels = out["kernels"]
             key = "asan" if flavour == "asan" else "thread"
             self.stats[key + "_calls"] += out["calls"]
+            self.stats["thread_compared"] += out.get("thread_compared", 0)
             start = len(cases)
 
     @staticmethod
@@ -376,6 +395,12 @@ class Replayer(object):
                 self.chk.known_finding(F_MOMENT, "add_pixel forms f*f, s*s, s*f in int: pixels beyond column/row 46340 "
                                        "overflow (UBSan) and corrupt the second-moment sums")
                 return True
+        if d["k"] == "localmaxlabel" and bad.get("partfits") is False and d["ns"] * d["nf"] * d.get("nt", 0) >= 2 ** 31 and \
+                (("signed integer overflow" in text and "localmaxlabel" in text) or "output labels" in text):
+            if self.chk.finding(F_PART) is not None:
+                self.chk.known_finding(F_PART, "localmaxlabel forms npx * (tid + 1) in int for the per-thread pixel range: "
+                                       "with npx * nt >= 2^31 the last threads walk nothing and leave cells of labels unwritten")
+                return True
         return False
 
     def problem(self, bad, problems, flavour, threads):
@@ -406,15 +431,92 @@ FIXED = ("misori_cubic", "misori_orthorhombic", "misori_tetragonal", "misori_mon
 
 
 def thread_subset(desc, tier):
-    """descriptors whose loops cross OpenMP chunk / row-block boundaries + a seeded tenth of the rest"""
+    """descriptors without a thread count of their own, for the 1 / 4 / 16 sweep: those whose loops cross OpenMP chunk /
+    row-block boundaries (a seeded part) + a seeded fiftieth of the rest"""
     rng = np.random.RandomState(common.seed())
     out = []
     for c in sorted(desc, key=lambda c: json.dumps(c["d"], sort_keys=True)):      # (TLC's output order varies)
         d = c["d"]
         large = d["ns"] * d["nf"] >= 4096 or d["n"] >= 4095
-        if (large and rng.rand() < 0.5) or rng.rand() < (0.02 if tier == "quick" else 0.05):
+        if (large and rng.rand() < (0.3 if tier == "quick" else 0.5)) or rng.rand() < (0.02 if tier == "quick" else 0.05):
             out.append(c)
     return out
+
+
+def thread_order(desc):
+    """descriptors with a thread count, one team size after the other (a change of the team size costs libgomp a
+    new team; the nt = 1 results are what the driver compares the others with)"""
+    return sorted(desc, key=lambda c: (c["d"]["nt"], json.dumps(c["d"], sort_keys=True)))
+
+
+def thread_asan_subset(thr, tier):
+    """the part of the thread-count descriptors that also runs under the sanitizers: thorough all; quick every call
+    with more threads than elements on the smallest shapes / lists + a seeded fifth of the rest"""
+    if tier != "quick":
+        return list(thr)
+    rng = np.random.RandomState(common.seed() + 20)
+    out = []
+    for c in thr:
+        d = c["d"]
+        tiny = c["thr"]["tag"] == "gtE" and d["ns"] * d["nf"] <= 9 and d["n"] <= 3 and d["c1"] in ("full", "-")
+        if tiny or rng.rand() < 0.2:
+            out.append(c)
+    return out
+
+
+TAGS = ("one", "gtE", "ndiv", "div", "div64")
+
+
+def parallel_functions(srcdir):
+    """functions of src/*.c whose body, or the body of a function they call, holds a `#pragma omp parallel`"""
+    bodies = {}
+    for path in sorted(glob.glob(os.path.join(srcdir, "*.c"))):
+        txt = open(path, errors="replace").read()
+        txt = re.sub(r"/\*.*?\*/", " ", txt, flags=re.S)
+        txt = re.sub(r"//[^\n]*", " ", txt)
+        for m in re.finditer(r"^[A-Za-z_][\w \t\*]*?\b(\w+)\s*\(([^;{}]*)\)\s*\{", txt, flags=re.M):
+            depth, i = 1, m.end()
+            while depth and i < len(txt):
+                depth += {"{": 1, "}": -1}.get(txt[i], 0)
+                i += 1
+            bodies[m.group(1)] = txt[m.end():i]
+    par = set(f for f, b in bodies.items() if re.search(r"#\s*pragma\s+omp\s+parallel", b))
+    grew = True
+    while grew:
+        grew = False
+        for f, b in bodies.items():
+            if f not in par and any(re.search(r"\b%s\s*\(" % g, b) for g in par):
+                par.add(f)
+                grew = True
+    return par
+
+
+def crosscheck_threads(chk, iface, thr, rep):
+    """the thread-count dimension is about the right kernels and not vacuous"""
+    spec_par = set(iface["parallel"])
+    src_par = parallel_functions(os.path.join(common.REPO, "src")) & set(iface["interface"])
+    chk.notes["parallel_kernels"] = sorted(spec_par)
+    if src_par != spec_par:
+        raise common.MachineryError("KernelCalls!ParK and the `#pragma omp parallel` regions of %s/src differ: only in the "
+                                    "source %s, only in the specification %s" % (common.REPO, sorted(src_par - spec_par),
+                                                                                 sorted(spec_par - src_par)))
+    seen = {}
+    rejected = set(json.dumps(r["example"], sort_keys=True) for r in rep.rejected.values())
+    for c in thr:
+        if json.dumps(c["d"], sort_keys=True) in rejected:
+            raise common.MachineryError("a descriptor with a thread count was refused by the wrapper: %s" % c["d"])
+        seen.setdefault(c["d"]["k"], {}).setdefault(c["thr"]["tag"], 0)
+        seen[c["d"]["k"]][c["thr"]["tag"]] += 1
+    if rep.stats["thread_calls"] < len(thr):
+        raise common.MachineryError("%d descriptors with a thread count, %d calls" % (len(thr), rep.stats["thread_calls"]))
+    for k in sorted(spec_par):
+        missing = [t for t in TAGS if not seen.get(k, {}).get(t)]
+        if missing:
+            raise common.MachineryError("vacuity: %s was not executed with a thread count in the relation(s) %s to its "
+                                        "trip count" % (k, missing))
+    chk.notes["thread_relations_executed"] = seen
+    if rep.stats["thread_compared"] == 0:
+        raise common.MachineryError("vacuity: no result was compared with its single-thread result")
 
 
 # ------------------------------------------------------------------------------------------------
@@ -445,8 +547,11 @@ def run(tier, replay=None):
     chk.rule = ("KernelCalls.tla enumerates, for each of the 55 exported kernels, shape x content x size x parameter "
                 "classes (boundary lattice); the kernel models emit every case of their boundary scopes; each is executed "
                 "on the ASan+UBSan build with exactly-sized poisoned arrays and judged for sanitizer reports, definedness "
-                "of promised outputs and agreement with model / reference; large descriptors also at 1/4/16 threads on "
-                "the normal build. non-trivial = non-empty content / non-zero size; distinct = distinct (build, descriptor)")
+                "of promised outputs and agreement with model / reference; a sample of the large descriptors also at "
+                "1/4/16 threads on the normal build; descriptors of the 23 OpenMP kernels that carry a thread count "
+                "(1,2,3,7,16,31,64 x small shapes, thin strips, all list sizes) run with that many threads on the normal "
+                "build (a seeded fifth also under the sanitizers) and are compared with their single-thread result. "
+                "non-trivial = non-empty content / non-zero size; distinct = distinct (build, descriptor)")
     chk.assumptions = [
         "memory safety is a property of the binary: the specification supplies the call lattice and (for the modelled "
         "kernels) index-bound proofs on the models; the verdict per executed call comes from the sanitizer build",
@@ -463,8 +568,16 @@ def run(tier, replay=None):
     desc, iface, model = run_all_tlc(chk, tier)
     chk.notes["tlc_s"] = round(time.time() - t0, 1)
     rep = Replayer(chk)
+    thr = thread_order([c for c in desc if c["d"].get("nt", 0) > 0])
+    plain = [c for c in desc if c["d"].get("nt", 0) == 0]
     t0 = time.time()
-    rep.run(desc, "asan", tag="descriptors")
+    rep.run(thr, "normal", tag="thread counts")
+    chk.notes["thread_count_descriptors"] = len(thr)
+    chk.notes["thread_count_descriptors_s"] = round(time.time() - t0, 1)
+    if not chk.violations:
+        crosscheck_threads(chk, iface, thr, rep)
+    t0 = time.time()
+    rep.run(plain + thread_asan_subset(thr, tier), "asan", tag="descriptors")
     chk.notes["asan_descriptors_s"] = round(time.time() - t0, 1)
     if not chk.violations:          # (with violations the picture of the child's bookkeeping may be incomplete)
         crosscheck_interface(chk, iface, rep, desc)
@@ -472,12 +585,13 @@ def run(tier, replay=None):
     rep.run(model, "asan", tag="model cases")
     chk.notes["asan_model_cases_s"] = round(time.time() - t0, 1)
     t0 = time.time()
-    sub = thread_subset(desc, tier)
+    sub = thread_subset(plain, tier)
     sa = [c for c in model if c["src"] == "scoreassign" and c.get("reps", 1) > 1]
     rep.run(sub + sa, "normal", threads=THREADS, tag="threads")
     chk.notes["thread_sweep_s"] = round(time.time() - t0, 1)
     chk.notes.update(rep.stats)
     chk.notes["thread_counts"] = THREADS
+    chk.notes["thread_counts_of_the_lattice"] = sorted(iface.get("nts", []))
     chk.notes["wrapper_rejections"] = rep.rejected
     chk.notes["observations"] = rep.notes
     chk.notes["failure_signatures"] = dict((" | ".join(str(x) for x in k), v) for k, v in rep.sigs.items())
@@ -556,4 +670,30 @@ def selftest():
         raise common.MachineryError("selftest: out-of-bounds write one element behind the array not reported: %s" % fake.violations)
     if rep.stats["asan_cases"] < 4:
         raise common.MachineryError("selftest: the run did not resume behind the aborting case")
+    # 4. the thread-count dimension: the driver really runs with the descriptor's thread count, a result that differs
+    #    from the single-thread result in one cell / misses an output is reported, an equal one is not
+    sys.path.insert(0, HERE)
+    import c20_driver
+
+    class _X(object):
+        def __init__(self):
+            self.problems = []
+
+        def bad(self, m):
+            self.problems.append(m)
+    one = {"labels": np.arange(12, dtype=np.int32), "ret:count": 3}
+    for many, want in ((dict(one), 0), ({"labels": np.where(np.arange(12) == 11, -7, np.arange(12)).astype(np.int32), "ret:count": 3}, 1),
+                       ({"labels": np.arange(12, dtype=np.int32), "ret:count": 4}, 1), ({"ret:count": 3}, 1)):
+        x = _X()
+        c20_driver.compare_threads("localmaxlabel", 16, one, many, x)
+        if len(x.problems) != want:
+            raise common.MachineryError("selftest: comparison with the single-thread result: %d reports, expected %d (%s)" % (
+                len(x.problems), want, x.problems))
+    lm = {"k": "localmaxlabel", "ns": 5, "nf": 3, "c1": "full", "c2": "-", "n": 0, "m": 0, "par": "ramp", "opt": 0, "big": True}
+    fake.violations = []
+    rep2 = Replayer(fake)
+    rep2.run([{"src": "kc", "d": dict(lm, nt=1), "thr": {"E": 15, "tag": "one", "gtrows": False}, "mat": {}},
+              {"src": "kc", "d": dict(lm, nt=7), "thr": {"E": 15, "tag": "ndiv", "gtrows": True}, "mat": {}}], "normal", tag="selftest")
+    if fake.violations or rep2.stats["thread_compared"] != 1 or rep2.stats["thread_calls"] != 2:
+        raise common.MachineryError("selftest: thread-count descriptors: %s %s" % (fake.violations, rep2.stats))
     return True
